@@ -32,6 +32,9 @@ pub struct LockCase {
 
 #[derive(Clone, Debug, Serialize, Deserialize, PartialEq, Eq, Hash)]
 pub struct MarkerCase {
+    /// false: the directory has no lock file (as directories written by other major versions)
+    #[serde(default = "yes")]
+    pub lock_present: bool,
     /// None = marker file removed
     pub marker: Option<Vec<u8>>,
     pub evicted_first_journal: bool,
@@ -43,6 +46,10 @@ pub struct MarkerCase {
 pub enum C17Case {
     Lock(LockCase),
     Marker(MarkerCase),
+}
+
+fn yes() -> bool {
+    true
 }
 
 enum DbAny {
@@ -108,10 +115,14 @@ pub struct LockStats {
     pub compared: u64,
     pub reopened: u64,
     pub drops_on_other_thread: u64,
+    pub last_db_drop_with_sealed_journals: u64,
+    pub not_quiescent: u64,
 }
 
 pub fn run_lock(dir: &Path, c: &LockCase, st: &mut LockStats) -> Result<(), String> {
     let _ = std::fs::remove_dir_all(dir);
+    // journal rotation after ~1 KB (unmodified rotation code), so that sealed journals exist at drop time
+    fjall::verif::JOURNAL_POS_SCALE.store(64_000, std::sync::atomic::Ordering::SeqCst);
     if std::env::var("FJV_TRACE").is_ok() && worker_threads_alive() > 0 {
         eprintln!("TRACE: {} worker threads alive BEFORE case {}", worker_threads_alive(), serde_json::to_string(c).unwrap());
     }
@@ -134,14 +145,32 @@ pub fn run_lock(dir: &Path, c: &LockCase, st: &mut LockStats) -> Result<(), Stri
                 Act::Open(fl) => {
                     let live = !dbs.is_empty() || !kss.is_empty();
                     if live {
-                        // quiesce if we can, so that the directory comparison is meaningful
+                        // quiesce first, so that the directory comparison is meaningful: no queued worker
+                        // message, no queued flush, no running compaction, no sealed memtable, and the
+                        // directory listing stable over consecutive samples
                         let mut compare = true;
                         if let Some(d) = dbs.first() {
                             let t0 = std::time::Instant::now();
-                            while (d.inner().outstanding_flushes() > 0 || d.inner().active_compactions() > 0) && t0.elapsed().as_millis() < 3000 {
-                                std::thread::sleep(std::time::Duration::from_millis(2));
+                            let mut stable = 0;
+                            let mut last_sig = tree_sig(dir);
+                            while stable < 4 && t0.elapsed().as_millis() < 5000 {
+                                std::thread::sleep(std::time::Duration::from_millis(4));
+                                let idle = d.inner().verif_pending() == 0
+                                    && d.inner().outstanding_flushes() == 0
+                                    && d.inner().active_compactions() == 0
+                                    && kss.iter().all(|k| k.sealed_memtable_count() == 0);
+                                let sig = tree_sig(dir);
+                                if idle && sig == last_sig {
+                                    stable += 1;
+                                } else {
+                                    stable = 0;
+                                }
+                                last_sig = sig;
                             }
-                            std::thread::sleep(std::time::Duration::from_millis(5));
+                            if stable < 4 {
+                                compare = false;
+                                st.not_quiescent += 1;
+                            }
                             bg_dirty = false;
                         } else if bg_dirty {
                             compare = false;
@@ -255,6 +284,9 @@ pub fn run_lock(dir: &Path, c: &LockCase, st: &mut LockStats) -> Result<(), Stri
                 Act::DropDb(i, other_thread) => {
                     if let Some(j) = crate::case::idx(*i, dbs.len()) {
                         let d = dbs.remove(j);
+                        if dbs.is_empty() && d.inner().journal_count() > 1 {
+                            st.last_db_drop_with_sealed_journals += 1;
+                        }
                         if *other_thread {
                             st.drops_on_other_thread += 1;
                             std::thread::spawn(move || drop(d)).join().ok();
@@ -282,7 +314,7 @@ pub fn run_lock(dir: &Path, c: &LockCase, st: &mut LockStats) -> Result<(), Stri
                             continue;
                         }
                         let key = vec![b'k', *k % 8];
-                        let val = vec![*v; 1 + usize::from(*v) * 3];
+                        let val = vec![*v; 1 + usize::from(*v) * 9];
                         ks.insert(key.clone(), val.clone()).map_err(|e| format!("insert: {e:?}"))?;
                         model.get_mut(&ks.name().to_string()).unwrap().insert(key, val);
                     }
@@ -356,7 +388,15 @@ pub fn run_marker(dir: &Path, c: &MarkerCase, cache: &mut BTreeMap<(u8, bool, bo
             img.remove(vi);
         }
     }
+    let compatible0 = c.marker.as_ref().map_or(false, |b| b.len() >= 4 && &b[0..4] == b"FJL\x03");
+    // a directory written by this major version always has its lock file
+    if !c.lock_present && !compatible0 {
+        img.retain(|f| f.rel != Path::new("lock"));
+    }
     restore_dir(dir, &img);
+    // the lock file itself is part of the comparison when the open must be refused
+    let full_sig = |dir: &Path| -> Vec<(String, u64)> { snapshot_dir(dir).into_iter().map(|f| (f.rel.display().to_string(), f.len)).collect() };
+    let before_full = full_sig(dir);
     let before = tree_sig(dir);
     let compatible = c.marker.as_ref().map_or(false, |b| b.len() >= 4 && &b[0..4] == b"FJL\x03");
     let r = std::panic::catch_unwind(std::panic::AssertUnwindSafe(|| Database::builder(dir).worker_threads_unchecked(0).open()));
@@ -380,7 +420,11 @@ pub fn run_marker(dir: &Path, c: &MarkerCase, cache: &mut BTreeMap<(u8, bool, bo
                 Err(format!("compatible version marker refused: {e:?}"))
             } else {
                 let after = tree_sig(dir);
-                if after != before {
+                let after_full = full_sig(dir);
+                if after_full != before_full {
+                    let d: Vec<String> = after_full.iter().filter(|x| !before_full.contains(x)).map(|x| x.0.clone()).collect();
+                    Err(format!("refused open ({e:?}) created or resized files: {d:?}"))
+                } else if after != before {
                     let d: Vec<String> = after.iter().filter(|x| !before.contains(x)).map(|x| x.0.clone()).chain(before.iter().filter(|x| !after.contains(x)).map(|x| format!("-{}", x.0))).collect();
                     Err(format!("refused open ({e:?}) modified the directory: {d:?}"))
                 } else {
@@ -429,8 +473,8 @@ pub fn marker_s() -> BoxedStrategy<C17Case> {
             b
         }),
     ];
-    (prop::option::weighted(0.85, bytes), any::<bool>(), 0u8..4, any::<bool>())
-        .prop_map(|(marker, evicted_first_journal, keys, flushed)| C17Case::Marker(MarkerCase { marker, evicted_first_journal, keys, flushed }))
+    (prop::option::weighted(0.85, bytes), any::<bool>(), 0u8..4, any::<bool>(), prop::bool::weighted(0.7))
+        .prop_map(|(marker, evicted_first_journal, keys, flushed, lock_present)| C17Case::Marker(MarkerCase { lock_present, marker, evicted_first_journal, keys, flushed }))
         .boxed()
 }
 
@@ -491,6 +535,8 @@ pub fn shard_c17(seed: u64, shard: u32, cases: u32) -> ShardOut {
     o.stats.insert("directory_comparisons".into(), st.compared);
     o.stats.insert("successful_reopens_after_last_drop".into(), st.reopened);
     o.stats.insert("handle_drops_on_other_thread".into(), st.drops_on_other_thread);
+    o.stats.insert("last_database_drop_with_sealed_journals".into(), st.last_db_drop_with_sealed_journals);
+    o.stats.insert("comparisons_skipped_not_quiescent".into(), st.not_quiescent);
     // part 2: version marker contents
     if o.failure.is_none() {
         let mut r = runner(cases, seed_bytes(seed, shard, "C17-marker"));
